@@ -102,6 +102,7 @@ def build(u, slices_only=None, whole=True):
 def _finish(u, h, slices_only):
     if slices_only is not None:
         slices_only(u, h)
+    u.auto_here(h, "htlc_manager")
     u.raw("}\n} // verus!\nfn main() {}\n")
 
 
